@@ -422,7 +422,7 @@ func C14(op Opts) *Out {
 					c := b58[(bytes.IndexByte([]byte(b58), s[pos])+d)%58]
 					m := s[:pos] + string(c) + s[pos+1:]
 					if k, err := hdkeychain.NewKeyFromString(m); err == nil {
-						o.Add(m, "accepted a corrupted serialisation as "+k.String(), "parse-accepts-corrupt")
+						o.Add(m, "accepted a corrupted serialisation as "+keyStr(k), "parse-accepts-corrupt")
 					}
 				}
 			}
@@ -464,7 +464,7 @@ func C14(op Opts) *Out {
 				o.Evaluations++
 				o.Families["bad-key-material"]++
 				if k, err := hdkeychain.NewKeyFromString(mk(kd)); err == nil {
-					o.Add(name, "accepted out-of-range / off-curve key material as "+k.String(), "parse-accepts-bad-key")
+					o.Add(name, "accepted out-of-range / off-curve key material as "+keyStr(k), "parse-accepts-bad-key")
 				}
 			}
 			// over-long payloads with a checksum that matches them: serialised keys are exactly 78+4 bytes
@@ -484,7 +484,7 @@ func C14(op Opts) *Out {
 					h2 := sha256.Sum256(h1[:])
 					str := b58enc(append(b, h2[:4]...))
 					if k, err := hdkeychain.NewKeyFromString(str); err == nil {
-						o.Add(fmt.Sprintf("over-long payload (+%d bytes)", len(extra)), "accepted a serialisation with surplus bytes as "+k.String(), "parse-accepts-corrupt")
+						o.Add(fmt.Sprintf("over-long payload (+%d bytes)", len(extra)), "accepted a serialisation with surplus bytes as "+keyStr(k), "parse-accepts-corrupt")
 					}
 				}
 			}
@@ -495,4 +495,13 @@ func C14(op Opts) *Out {
 		}
 	}
 	return o
+}
+
+// keyStr describes a key returned without an error; a nil key with a nil error is itself
+// a reportable answer, not something to dereference.
+func keyStr(k *hdkeychain.ExtendedKey) string {
+	if k == nil {
+		return "<nil key returned with a nil error>"
+	}
+	return k.String()
 }
